@@ -69,6 +69,12 @@ CHECKS['C14'] = ('fault_enumeration',
     'Dictionary-built 10-cell template only; file-level faults represented by references to absent books. Known finding C14-absent-range-overrides-known-cells printed from its witness. ' + TB,
     'DESIGN.md §3 C14')
 
+CHECKS['C19'] = ('model_checking',
+    'symbolic execution of the real MATCH / INDEX kernels with CrossHair/z3 (symbolic integer keys, lookup values, row and column numbers); selector exploration for text keys, tables and criteria',
+    'Bounded symbolic checking: xmatch returns the last key <= v (ascending) / >= v (descending) / the first equal key for EVERY vector of up to 5 symbolic integer keys and every lookup value; _index returns the element at (row, column), #REF! outside and #VALUE! below zero for symbolic row / column on all shapes up to 3x3; by selectors: wildcard / case-insensitive / own-type exact MATCH on a mixed vector, VLOOKUP / HLOOKUP / LOOKUP equal INDEX of MATCH on 5 key columns x 12 keys x 4 result columns x 2 modes, COUNTIF / SUMIF / AVERAGEIF select exactly the own-type elements satisfying each of 13 criteria over all element triples of a 10-entry pool.',
+    'Integer keys only (no floats) in the symbolic part; text / criteria / tables from pools (bounded exhaustive); INDEX row/column 0 outside. ' + TB,
+    'DESIGN.md §3 C19')
+
 NA = {
     'C15': 'the dependency closure is computed over openpyxl worksheets read from .xlsx files while mutating the schedula dispatcher; neither can be given a symbolic state (DESIGN §4)',
     'C16': 'placement is done by openpyxl range iteration zipped with np.ravel and compared by re-reading files: I/O and third-party C code, no encodable kernel (DESIGN §4)',
